@@ -136,6 +136,10 @@ def run_pair(res, argv_common, bam, desc, sample_name_expected=None):
         except util.Slow:
             res.count("skipped_slow")
             return False
+    if any(k == "err" and isinstance(v, util.Slow) for k, v in c1.calls + c2.calls):
+        # the wall-clock limit fired inside genotype() and main() reported it as that gene's error: inconclusive
+        res.count("skipped_slow")
+        return False
     if not c1.calls or not c2.calls:
         res.check("both_ran", False, "a run did not reach genotype()", first=len(c1.calls), second=len(c2.calls), **desc)
         return False
